@@ -170,4 +170,15 @@ CHECKS = {
        "type-unforced parts (argument order inside instances, evaluation counts, Compose order, Id/Head/Last projections). Labelled* "
        "families are exercised through gombok output (C07).",
   technique="exhaustive enumeration of family members with position-tagged, distinctly typed arguments, validated by TLC against wiring tables"),
+ "C13": dict(
+  level="translation_validation",
+  text="GenFix.tla states the property as a transition system on the digest tree (a generator pass is a stuttering step, all passes "
+       "write the same bytes, every generated file has an owner). In a scratch copy of /repo's working tree the three generators are "
+       "built from that copy and all 34 go:generate directives are executed the way `go generate` does, in several passes under "
+       "different GOMAXPROCS (each process re-randomises map iteration) and on top of the regenerated tree; SHA-256 digests of every Go "
+       "file before and after each pass, the set of files written and failed directives are logged and TLC (TraceGenFix) accepts only "
+       "fixpoint passes without orphans. programs = generator runs; disagreements = files whose digest changed.",
+  note="TLA+ contributes the statement and the uniform accept/reject; the verdict is a digest comparison of real generator output, hence "
+       "translation_validation rather than model_checking. Scratch packages of C07/C08 are regenerated twice inside those checks.",
+  technique="generator runs as events validated against a fixpoint specification (digest comparison)"),
 }
